@@ -17,6 +17,10 @@ def build(tier):
                       "a TensorDict row is one abstract value: fields of one transition are written by one row assignment"]
     P.uncovered += ["per-field shape normalisation in Transition.__post_init__ (components/data.py) and MultiAgentReplayBuffer.stack_transitions (numpy stacking) - not under contract",
                     "vector/image/dict/tuple observation kinds are abstracted by the row model (the code under contract is kind-agnostic)"]
+    P.native.append(dict(name='rb_add', adapter='c09:rb_add', thorough_only=True, payload={"mode": "search"},
+                         bound='add/clear/sample sequences against a reference ring buffer (capacity 1-7, batch widths 1-4, wrap at/over the end)'))
+    P.native.append(dict(name='ma_buffer', adapter='c09:ma_buffer', thorough_only=True, payload={"mode": "search"},
+                         bound='MultiAgentReplayBuffer sequences incl. dict / tuple observations'))
     return P
 
 
